@@ -1,6 +1,7 @@
 (* DenLink.v — the reference semantics (demand-driven, continuation-passing) agrees with an EAGER LIST
    semantics on the fragment F0 of jq: identity, scalar literals, pipe, comma, empty, t[], t.k, if/else,
-   try/catch, error, length, `src as $x | body`, $x, [q], reduce, foreach, //, label/break.  den0 is written
+   try/catch, error, length, `src as $x | body`, $x, [q], reduce, foreach, //, label/break, the arithmetic and
+   comparison operators (right operand first).  den0 is written
    clause by clause like coq/c01vm/Den.v (seq / bind_list / bind), over the values and natives of coq/sem.
    Constructs that keep a cell or a label alive while their consumer runs are handled by a frame property
    of continuations (K_ok) and, for labels, by the invariance of den0 under renamings of label ids (den0_ren).
@@ -29,7 +30,8 @@ Inductive q0 :=
 | Z0Alt (a b : q0)                             (* a // b *)
 | Z0Foreach (src : q0) (x : bytes) (init upd : q0) (ext : option q0)   (* foreach src as $x (init; upd [; ext]) *)
 | Z0Label (nm : bytes) (body : q0)            (* label $nm | body ; nm carries the $ *)
-| Z0Break (nm : bytes).                       (* break $nm *)
+| Z0Break (nm : bytes)                        (* break $nm *)
+| Z0Binop (o : operator) (a b : q0).          (* a o b for arithmetic / comparison operators *)
 
 Definition paren (q : query) : term := Term (TQuery q) [].
 
@@ -59,6 +61,7 @@ Fixpoint emb (q : q0) : query :=
   | Z0Foreach src x init upd ext => q_term (TForeach (emb src) (Pattern x [] []) (emb init) (emb upd) (option_map emb ext))
   | Z0Label nm body => q_term (TLabel nm (emb body))
   | Z0Break nm => q_term (TBreak nm)
+  | Z0Binop o a b => q_bin (emb a) o (emb b)
   end.
 
 (* eager list semantics, clause by clause as coq/c01vm/Den.v *)
@@ -67,6 +70,12 @@ Definition result := (list jv * option exn)%type.
 (* labels: the ids bound in an environment, and an id above all of them.  Sem takes the label id from the
    state's counter; the list semantics has no state and takes [lab_bound rho]: any id not bound in rho gives
    the same result (den0_ren below). *)
+Definition is_arith (o : operator) : bool :=
+  match o with
+  | OpAdd | OpSub | OpMul | OpDiv | OpMod | OpEq | OpNe | OpGt | OpLt | OpGe | OpLe => true
+  | _ => false
+  end.
+
 Fixpoint lab_ids (rho : env) : list N :=
   match rho with
   | [] => []
@@ -117,6 +126,11 @@ Definition iter_res (w : jv) : result :=
   | VArr l => (l, None)
   | VObj kvs => (map snd kvs, None)
   | _ => ([], Some (XErr O EIterator (mask EIterator (msg_iterator w))))
+  end.
+Definition binop_res (o : operator) (l r : jv) : result :=
+  match op_binop o with
+  | Some f => of_nres (f l r)
+  | None => ([], Some (XSkip (codes "operator")))
   end.
 Definition bind_env (rho : env) (x : bytes) (w : jv) : env := BVar x (plain w) :: BVar x (plain VNull) :: rho.
 
@@ -214,6 +228,8 @@ Fixpoint den0 (q : q0) (rho : env) (v : jv) : result :=
                   | Some l => ([], Some (XBreak l))
                   | None => ([], Some (XSkip (codes "undefined-label")))
                   end
+  (* binary operators evaluate the RIGHT operand first: it is the outer loop *)
+  | Z0Binop o a b => rbind (den0 b rho v) (fun r => rbind (den0 a rho v) (fun l => binop_res o l r))
   end.
 
 End Den0.
@@ -401,6 +417,7 @@ Fixpoint ok0 (q : q0) : Prop :=
   | Z0Alt a b => ok0 a /\ ok0 b
   | Z0Foreach src x init upd ext => is_var_name x = true /\ ok0 src /\ ok0 init /\ ok0 upd /\ match ext with Some e => ok0 e | None => True end
   | Z0Label _ body => ok0 body
+  | Z0Binop o a b => is_arith o = true /\ ok0 a /\ ok0 b
   | _ => True
   end.
 
@@ -416,6 +433,7 @@ Fixpoint need (q : q0) : nat :=
   | Z0Alt a b => 2 + Nat.max (need a) (need b)
   | Z0Foreach src x init upd ext => 4 + Nat.max (need src) (Nat.max (need init) (Nat.max (need upd) (match ext with Some e => need e | None => 0 end)))
   | Z0Label _ body => 3 + need body
+  | Z0Binop _ a b => S (Nat.max (need a) (need b))
   | _ => 4
   end.
 
@@ -514,6 +532,8 @@ Proof.
     intros l' E. cbn in E. injection E as <-. destruct (IH l eq_refl) as [H|H]; [congruence|exact H].
   - destruct (lookup_label rho nm) as [l|] eqn:E; [|trivb]. intros l' E'. cbn in E'. injection E' as <-.
     eapply lookup_label_in. exact E.
+  - apply brk_in_rbind; [apply den0_brk|intros r]. apply brk_in_rbind; [apply den0_brk|intros l].
+    unfold binop_res. destruct (op_binop o) as [f|]; [destruct (f l r)|]; trivb.
 Qed.
 
 Lemma brk_lt_of_in (Inv : sst -> Prop) ids r : (forall s l, Inv s -> In l ids -> (l < nextid s)%N) -> brk_in ids r -> brk_lt Inv r.
@@ -778,6 +798,8 @@ Proof.
     destruct (den0 rs q (BLabel nm (lab_bound rho) :: rho) v) as [ws [[d c val|l| | | |]|]]; cbn [label_res]; try exact IH.
     destruct (l =? lab_bound rho)%N; [triv0|exact IH].
   - destruct (lookup_label rho nm); triv0.
+  - apply depth0_rbind; [apply den0_depth0|intros r]. apply depth0_rbind; [apply den0_depth0|intros l].
+    unfold binop_res. destruct (op_binop o) as [f|]; [destruct (f l r)|]; triv0.
 Qed.
 
 Lemma sim_try a h : sim a -> match h with Some h => sim h | None => True end -> sim (Z0Try a h).
@@ -1433,6 +1455,54 @@ Proof.
 Qed.
 
 
+(* ---- arithmetic and comparison operators ---- *)
+Lemma binop_law n rho l o r v ps k : is_arith o = true ->
+  eval_q bs (S n) rho (q_bin l o r) v ps k =
+  match op_binop o with
+  | Some f => eval_q bs n rho r v ps (fun rv ps1 =>
+                eval_q bs n rho l v ps1 (fun lv ps2 => lift (f (fst lv) (fst rv)) (fun w => k (plain w) ps2)))
+  | None => skipM "operator"
+  end.
+Proof. intros H. destruct o; try discriminate H; reflexivity. Qed.
+
+Lemma lift_run k (r : nres) s : repsens s = rs -> lift r (fun w => k (plain w) None) s = run_res k (of_nres rs r) s.
+Proof.
+  intros Hs. destruct r as [w|c val|why]; cbn [lift of_nres].
+  - rewrite run_single. reflexivity.
+  - unfold raise_err, run_res, mask. cbn [run_list fst snd]. rewrite Hs. reflexivity.
+  - reflexivity.
+Qed.
+
+Lemma of_nres_nobrk r l : snd (of_nres rs r) <> Some (XBreak l).
+Proof. destruct r; discriminate. Qed.
+
+Lemma sim_binop o a b : is_arith o = true -> sim a -> sim b -> sim (Z0Binop o a b).
+Proof.
+  intros Ho Ha Hb n rho v k s Inv Hn Hr HI Hk Hlt Hs. cbn [need] in Hn. destruct n as [|n]; [lia|].
+  cbn [emb den0]. rewrite (binop_law n rho (emb a) o (emb b) (plain v) None k Ho). unfold binop_res.
+  destruct (op_binop o) as [f|] eqn:Ef; [|destruct o; discriminate].
+  set (KL := fun (r : jv) (lv : tv) (ps2 : pst) => lift (f (fst lv) r) (fun w => k (plain w) ps2)).
+  assert (HKL : forall r, K_ok Inv (KL r)).
+  { intros r. apply (K_ok_of_eq Inv k _ (fun l => of_nres rs (f l r))); try assumption.
+    - intros l. apply brk_lt_none. intros l0. apply of_nres_nobrk.
+    - intros l s' Hs'. unfold KL. cbn [fst plain]. apply lift_run. apply (proj1 HI). exact Hs'. }
+  set (FR := fun r : jv => rbind (den0 rs a rho v) (fun l => of_nres rs (f l r))).
+  assert (HKR : forall r s', Inv s' -> eval_q bs n rho (emb a) (plain v) None (KL r) s' = run_res k (FR r) s').
+  { intros r s' Hs'. rewrite (Ha _ _ _ _ _ Inv); [|lia|assumption|assumption|apply HKL|assumption|assumption]. unfold run_res at 1.
+    rewrite (run_list_ext Inv _ (fun x _ => run_res k ((fun l => of_nres rs (f l r)) (fst x)))); [|apply HKL|assumption|].
+    - rewrite (run_rbind k (fun l => of_nres rs (f l r))). unfold FR. destruct (den0 rs a rho v); reflexivity.
+    - intros l s'' Hs''. unfold KL. cbn [fst plain]. apply lift_run. apply (proj1 HI). exact Hs''. }
+  assert (HKRok : K_ok Inv (fun rv ps1 => eval_q bs n rho (emb a) (plain v) ps1 (KL (fst rv)))).
+  { apply (K_ok_of_eq Inv k _ FR); [assumption|assumption| |intros r s' Hs'; cbn [fst plain]; apply HKR; exact Hs'].
+    intros r. apply (brk_lt_of_in Inv (lab_ids rho)); [apply in_lt; exact Hlt|]. unfold FR.
+    apply brk_in_rbind; [apply den0_brk|]. intros l l0 E. exfalso. exact (of_nres_nobrk _ _ E). }
+  change (eval_q bs n rho (emb b) (plain v) None (fun rv ps1 => eval_q bs n rho (emb a) (plain v) ps1 (KL (fst rv))) s =
+          run_res k (rbind (den0 rs b rho v) FR) s).
+  rewrite (Hb _ _ _ _ _ Inv) by (try lia; assumption). unfold run_res at 1.
+  rewrite (run_list_ext Inv _ (fun x _ => run_res k (FR (fst x)))); [|assumption|assumption|intros r s' Hs'; cbn [fst plain]; apply HKR; exact Hs'].
+  rewrite (run_rbind k FR). destruct (den0 rs b rho v); reflexivity.
+Qed.
+
 (* ---- label / break ---- *)
 (* renaming of label ids: den0 treats ids parametrically *)
 Definition ren_b (p : N -> N) (b : binding) : binding := match b with BLabel nm l => BLabel nm (p l) | _ => b end.
@@ -1543,6 +1613,8 @@ Proof.
       destruct (N.eqb_spec (p l) ID'); [lia|]. unfold ren_res. cbn [fst snd option_map ren_exn].
       destruct (N.eqb_spec l ID); [contradiction|]. reflexivity.
   - rewrite lookup_label_ren. destruct (lookup_label rho nm); reflexivity.
+  - rewrite ren_rbind, den0_ren. apply rbind_ext. intros r. rewrite ren_rbind, den0_ren. apply rbind_ext. intros l.
+    unfold binop_res. destruct (op_binop o) as [f|]; [destruct (f l r)|]; reflexivity.
 Qed.
 
 (* a well-behaved continuation is well-behaved under a frame *)
@@ -1669,6 +1741,7 @@ Proof.
   - apply sim_foreach; [tauto|apply sem_den0; tauto|apply sem_den0; tauto|apply sem_den0; tauto|destruct ext as [e|]; [apply sem_den0; tauto|exact I]].
   - apply sim_label. apply sem_den0. exact H.
   - apply sim_break.
+  - apply sim_binop; [tauto|apply sem_den0; tauto|apply sem_den0; tauto].
 Qed.
 
 (* observation level: when the generator ends before the cap, the observation is the list *)
